@@ -6,6 +6,8 @@ import KdVerif.Gen.Host
 import KdVerif.Proofs.EndToEnd
 import KdVerif.Gen.PyIRFm
 import KdVerif.Proofs.PyIRFm
+import KdVerif.Gen.PyIRCli
+import KdVerif.Proofs.PyIRCli
 /-
   C14 (column half) — every formatted line is the concatenation, in a fixed order, of the enabled
   columns; switching one column off removes exactly that column and alters no other; colouring
@@ -874,6 +876,214 @@ example : runCallstack Gen.PyIRFm.prog (irCx {} Colour.off) ⟨5, 7, [⟨0x1000,
     = .ok ("5 launchd(42)" ++ spaces 23 ++ "\nUUID:0x0000000000000010\n 0xffffffffffffffff1") := by decide +kernel
 example : runLog Gen.PyIRFm.prog (irCx {} Colour.termcolor) "2024-01-01 00:00:00.000001" ⟨7, "launchd", 42, "hi"⟩
     = .ok ("\x1b[32m2024-01-01 00:00:00.000001 \x1b[0m \x1b[35mlaunchd(42)" ++ spaces 16 ++ "\x1b[0m \x1b[97mhi\x1b[0m") := by
+  decide +kernel
+
+end KdVerif.C14
+
+/-! ### Translation tie: `--show-tid` / `--color` reach the line builders
+
+  (`tools/gen_pyir_cli.py` → `Gen/PyIRCli.lean`; IR and interpreter `Model/PyIRCli`; expected terms `Spec/PyIRCliExpected`;
+  see `Props/C12` / `C13` for the filter side.)  From the command line to the printed line, everything in between
+  translated from the source text: the command callback of `__main__.py` assigns the options to a fresh parser object
+  (`__init__` supplies the rest), calls `parser.formatted_x(dump)` — the `map` of `pykdebugparser.py` — which calls
+  `self._format_x(item…)` — the line builders of the first tie above —, and `print_with_count` prints.  Only the listing
+  `self.<source>(…)` stays a parameter (`src`: what it delivers as a function of the object and the dump — C12 / C13), and
+  the tables `t` at the moment a line is built (C14 above).  `c` is the colour machinery (pygments / termcolor), switched
+  by the object's `color` attribute. -/
+namespace KdVerif.C14
+open KdVerif.Format KdVerif.PyIRCli
+open KdVerif.Filters (LogRec)
+
+/-- **The terms the translator generates for the glue of this property are the expected ones**: `print_with_count`, the
+    four printing commands with their option declarations (`--show-tid` / `--no-show-tid` default `False`,
+    `--color` / `--no-color` default `True`, on `traces` only), `__init__` (`show_*`, `color` and the wall-clock defaults),
+    the four maps; nothing met that the translator could not express. -/
+theorem cli_source_is_expected_ir :
+    Gen.PyIRCli.printWithCount = PyIRCli.Expected.printWithCount ∧
+    Gen.PyIRCli.kevents = PyIRCli.Expected.kevents ∧
+    Gen.PyIRCli.traces = PyIRCli.Expected.traces ∧
+    Gen.PyIRCli.callstacks = PyIRCli.Expected.callstacks ∧
+    Gen.PyIRCli.logs = PyIRCli.Expected.logs ∧
+    Gen.PyIRCli.init = PyIRCli.Expected.init ∧
+    Gen.PyIRCli.formattedKevents = PyIRCli.Expected.formattedKevents ∧
+    Gen.PyIRCli.formattedTraces = PyIRCli.Expected.formattedTraces ∧
+    Gen.PyIRCli.formattedCallstacks = PyIRCli.Expected.formattedCallstacks ∧
+    Gen.PyIRCli.formattedLogs = PyIRCli.Expected.formattedLogs ∧
+    Gen.PyIRCli.notes = [] := by decide
+
+/-- the generated program record is the expected one -/
+theorem cli_prog_is_expected : Gen.PyIRCli.prog = PyIRCli.Expected.prog := by
+  obtain ⟨h1, _, _, _, _, h2, h3, h4, h5, h6, _⟩ := cli_source_is_expected_ir
+  simp only [Gen.PyIRCli.prog, PyIRCli.Expected.prog, h1, h2, h3, h4, h5, h6]
+
+/-- What the translated line builders read of the parser object: the six column switches, `color` (switching the given
+    colour machinery `c`), and that no wall-clock parameter is set; `t` / `qe` are the tables at that moment and the
+    reflected `DgbFuncQual`. -/
+def ctxOf (c : Colour) (t : Format.Tables) (qe : EnumDef) (o : Obj) : Option PyIRFm.Ctx :=
+  match showOfObj o, colorOfObj o with
+  | some sh, some col => if wallClockUnset o then some ⟨sh, { c with on := col }, t, qe, {}⟩ else none
+  | _, _ => none
+
+theorem ctxOf_objWith (c : Colour) (t : Format.Tables) (qe : EnumDef) (tid proc cls sub : Val) (st col : Bool) :
+    ctxOf c t qe (objWith tid proc cls sub (.bool st) (.bool col)) = some ⟨{ tid := st }, { c with on := col }, t, qe, {}⟩ := by
+  simp only [ctxOf, show_objWith, color_objWith, (unset_objWith ..).1, if_true]
+
+/-- `self.kevents(kdebug)` = `src`, `self._format_kevent(e, codes)` = the TRANSLATED builder; `dc` is what
+    `default_trace_codes()` returns. -/
+def keventMethods {δ : Type} (dc : List (Nat × String)) (c : Colour) (t : Format.Tables) (qe : EnumDef)
+    (src : Obj → δ → List Kevent × Option PyErr) : Methods δ Kevent (List (Nat × String)) :=
+  { source := fun m o args dump =>
+      if m = "kevents" then (match args with | [.kdebug] => src o dump | _ => ([], some .unmodelled))
+      else ([], some .attributeError)
+    formatter := fun m o e args =>
+      if m = "_format_kevent" then
+        match ctxOf c t qe o, args with
+        | some cx, [.codes k] => PyIRFm.runKevent Gen.PyIRFm.prog cx k e
+        | some cx, [.defaultCodes] => PyIRFm.runKevent Gen.PyIRFm.prog cx dc e
+        | _, _ => .error .unmodelled
+      else .error .attributeError }
+
+/-- `self.traces(kdebug, None)` = `src`, `self._format_trace(t)` = the translated builder. -/
+def traceMethods {δ : Type} (c : Colour) (t : Format.Tables) (qe : EnumDef)
+    (src : Obj → δ → List TraceRec × Option PyErr) : Methods δ TraceRec Unit :=
+  { source := fun m o args dump =>
+      if m = "traces" then (match args with | [.kdebug, .none] => src o dump | _ => ([], some .unmodelled))
+      else ([], some .attributeError)
+    formatter := fun m o tr args =>
+      if m = "_format_trace" then
+        match ctxOf c t qe o, args with
+        | some cx, [] => PyIRFm.runTrace Gen.PyIRFm.prog cx tr
+        | _, _ => .error .unmodelled
+      else .error .attributeError }
+
+/-- `self.callstacks(kdebug, None)` = `src`, `self._format_callstack(t)` = the translated builder. -/
+def callstackMethods {δ : Type} (c : Colour) (t : Format.Tables) (qe : EnumDef)
+    (src : Obj → δ → List Callstack × Option PyErr) : Methods δ Callstack Unit :=
+  { source := fun m o args dump =>
+      if m = "callstacks" then (match args with | [.kdebug, .none] => src o dump | _ => ([], some .unmodelled))
+      else ([], some .attributeError)
+    formatter := fun m o cs args =>
+      if m = "_format_callstack" then
+        match ctxOf c t qe o, args with
+        | some cx, [] => PyIRFm.runCallstack Gen.PyIRFm.prog cx cs
+        | _, _ => .error .unmodelled
+      else .error .attributeError }
+
+/-- `self.os_log_events(kdebug)` = `src` (each record with its `strftime` text), `self._format_log(t)` = the translated
+    builder. -/
+def logMethods {δ : Type} (c : Colour) (t : Format.Tables) (qe : EnumDef)
+    (src : Obj → δ → List (String × LogRec) × Option PyErr) : Methods δ (String × LogRec) Unit :=
+  { source := fun m o args dump =>
+      if m = "os_log_events" then (match args with | [.kdebug] => src o dump | _ => ([], some .unmodelled))
+      else ([], some .attributeError)
+    formatter := fun m o l args =>
+      if m = "_format_log" then
+        match ctxOf c t qe o, args with
+        | some cx, [] => PyIRFm.runLog Gen.PyIRFm.prog cx l.1 l.2
+        | _, _ => .error .unmodelled
+      else .error .attributeError }
+
+theorem lookup_formatted :
+    Gen.PyIRCli.prog.formatted.lookup "formatted_kevents" = some PyIRCli.Expected.formattedKevents ∧
+    Gen.PyIRCli.prog.formatted.lookup "formatted_traces" = some PyIRCli.Expected.formattedTraces ∧
+    Gen.PyIRCli.prog.formatted.lookup "formatted_callstacks" = some PyIRCli.Expected.formattedCallstacks ∧
+    Gen.PyIRCli.prog.formatted.lookup "formatted_logs" = some PyIRCli.Expected.formattedLogs := by
+  rw [cli_prog_is_expected]; decide
+
+/-- **`kevents [--show-tid]`: every printed line is `formatKevent` with the thread-id column exactly as the option says**
+    (all other columns on, as `__init__` leaves them; the default code table): the translated command, the translated
+    `formatted_kevents` and the translated `_format_kevent`, composed, print `print_with_count` of the `formatKevent` lines
+    of whatever `self.kevents` lists for the object the command built; the listing's exception surfaces unless the loop
+    broke first. -/
+theorem kevents_lines_ir_eq_model {δ τ : Type} (dc : List (Nat × String)) (c : Colour) (t : Format.Tables) (qe : EnumDef)
+    (src : Obj → δ → List Kevent × Option PyErr) (pa : δ → Except PyErr τ) (jd : τ → String → Int → Except PyErr String)
+    (g : Given) (hp : g.process = none) (hc : g.color = none) (dump : δ) :
+    run Gen.PyIRCli.prog (Gen.PyIRCli.prog.formattedVia (keventMethods dc c t qe src) pa jd) Gen.PyIRCli.kevents g.args dump =
+      pwcResult ((src (keventsObj (Opts.ofGiven g)) dump).1.map (formatKevent (showOf (Opts.ofGiven g)) qe dc t),
+                 (src (keventsObj (Opts.ofGiven g)) dump).2) (Opts.ofGiven g).count := by
+  have hrun := run_kevents_expected (Gen.PyIRCli.prog.formattedVia (keventMethods dc c t qe src) pa jd) g hp hc dump
+  rw [← cli_prog_is_expected, ← cli_source_is_expected_ir.2.1] at hrun
+  rw [hrun]
+  congr 1
+  simp only [Prog.formattedVia, lookup_formatted.1, runFormatted_kevents, codesArg]
+  rw [mapGen_ok _ (formatKevent (showOf (Opts.ofGiven g)) qe dc t)]
+  · simp [keventMethods]
+  · intro e
+    simp only [keventMethods, if_true, keventsObj, ctxOf_objWith]
+    exact format_kevent_ir_eq_model _ _ t qe {} (by decide) dc e
+
+/-- **`traces [--show-tid] [--no-color]`: every printed line is `formatTrace` with the thread-id column and the colour
+    switch exactly as the options say** (`--color` is the default: the body goes through the highlighter `c.hlTrace`). -/
+theorem traces_lines_ir_eq_model {δ τ : Type} (c : Colour) (t : Format.Tables) (qe : EnumDef)
+    (src : Obj → δ → List TraceRec × Option PyErr) (pa : δ → Except PyErr τ) (jd : τ → String → Int → Except PyErr String)
+    (g : Given) (dump : δ) :
+    run Gen.PyIRCli.prog (Gen.PyIRCli.prog.formattedVia (traceMethods c t qe src) pa jd) Gen.PyIRCli.traces g.args dump =
+      pwcResult ((src (tracesObj (Opts.ofGiven g)) dump).1.map
+                   (formatTrace (showOf (Opts.ofGiven g)) { c with on := (Opts.ofGiven g).color } t),
+                 (src (tracesObj (Opts.ofGiven g)) dump).2) (Opts.ofGiven g).count := by
+  have hrun := run_traces_expected (Gen.PyIRCli.prog.formattedVia (traceMethods c t qe src) pa jd) g dump
+  rw [← cli_prog_is_expected, ← cli_source_is_expected_ir.2.2.1] at hrun
+  rw [hrun]
+  congr 1
+  simp only [Prog.formattedVia, lookup_formatted.2.1, runFormatted_traces, givenArg]
+  rw [mapGen_ok _ (formatTrace (showOf (Opts.ofGiven g)) { c with on := (Opts.ofGiven g).color } t)]
+  · simp [traceMethods]
+  · intro tr
+    simp only [traceMethods, if_true, tracesObj, ctxOf_objWith]
+    exact format_trace_ir_eq_model _ _ t qe {} (by decide) tr
+
+/-- **`callstacks [--show-tid]`: every printed text is `formatCallstack` with the thread-id column as the option says.** -/
+theorem callstacks_lines_ir_eq_model {δ τ : Type} (c : Colour) (t : Format.Tables) (qe : EnumDef)
+    (src : Obj → δ → List Callstack × Option PyErr) (pa : δ → Except PyErr τ) (jd : τ → String → Int → Except PyErr String)
+    (g : Given) (hcf : g.classFilters = []) (hsf : g.subclassFilters = []) (hc : g.color = none) (dump : δ) :
+    run Gen.PyIRCli.prog (Gen.PyIRCli.prog.formattedVia (callstackMethods c t qe src) pa jd) Gen.PyIRCli.callstacks g.args dump =
+      pwcResult ((src (plainObj (Opts.ofGiven g)) dump).1.map (formatCallstack (showOf (Opts.ofGiven g)) t),
+                 (src (plainObj (Opts.ofGiven g)) dump).2) (Opts.ofGiven g).count := by
+  have hrun := run_callstacks_expected (Gen.PyIRCli.prog.formattedVia (callstackMethods c t qe src) pa jd) g hcf hsf hc dump
+  rw [← cli_prog_is_expected, ← cli_source_is_expected_ir.2.2.2.1] at hrun
+  rw [hrun]
+  congr 1
+  simp only [Prog.formattedVia, lookup_formatted.2.2.1, runFormatted_callstacks, givenArg]
+  rw [mapGen_ok _ (formatCallstack (showOf (Opts.ofGiven g)) t)]
+  · simp [callstackMethods]
+  · intro cs
+    simp only [callstackMethods, if_true, plainObj, ctxOf_objWith]
+    exact format_callstack_ir_eq_model _ _ t qe {} (by decide) cs
+
+/-- **`logs`: every printed line is `formatLog` with colour ON** — the command has no colour option and `__init__` sets
+    `color = True`; `--show-tid` is accepted and assigned, but `_format_log` consults no column switch. -/
+theorem logs_lines_ir_eq_model {δ τ : Type} (c : Colour) (t : Format.Tables) (qe : EnumDef)
+    (src : Obj → δ → List (String × LogRec) × Option PyErr) (pa : δ → Except PyErr τ)
+    (jd : τ → String → Int → Except PyErr String)
+    (g : Given) (hcf : g.classFilters = []) (hsf : g.subclassFilters = []) (hc : g.color = none) (dump : δ) :
+    run Gen.PyIRCli.prog (Gen.PyIRCli.prog.formattedVia (logMethods c t qe src) pa jd) Gen.PyIRCli.logs g.args dump =
+      pwcResult ((src (plainObj (Opts.ofGiven g)) dump).1.map (fun l => formatLog { c with on := true } t l.1 l.2),
+                 (src (plainObj (Opts.ofGiven g)) dump).2) (Opts.ofGiven g).count := by
+  have hrun := run_logs_expected (Gen.PyIRCli.prog.formattedVia (logMethods c t qe src) pa jd) g hcf hsf hc dump
+  rw [← cli_prog_is_expected, ← cli_source_is_expected_ir.2.2.2.2.1] at hrun
+  rw [hrun]
+  congr 1
+  simp only [Prog.formattedVia, lookup_formatted.2.2.2, runFormatted_logs]
+  rw [mapGen_ok _ (fun l => formatLog { c with on := true } t l.1 l.2)]
+  · simp [logMethods]
+  · intro l
+    simp only [logMethods, if_true, plainObj, ctxOf_objWith]
+    exact format_log_ir_eq_model _ _ t qe {} l.1 l.2
+
+private instance resultDecEq : DecidableEq Result := inferInstance
+
+-- non-vacuity: generated command + generated map + generated builder on concrete options and items
+example : run Gen.PyIRCli.prog (Gen.PyIRCli.prog.formattedVia
+      (traceMethods Colour.termcolor irTabs Gen.Enums.DgbFuncQual fun _ (d : List TraceRec) => (d, some .eof))
+      (fun _ => Except.error (ε := PyErr) (α := Unit) .unmodelled) (fun _ _ _ => .error .unmodelled))
+    Gen.PyIRCli.traces ({ showTid := some true, color := some false, count := some 1 } : Given).args
+    [⟨5, 7, "getpid(), pid: 42"⟩, ⟨6, 7, "x"⟩]
+    = .ran ["5 " ++ "          7 " ++ "launchd(42)" ++ spaces 23 ++ "getpid(), pid: 42"] none := by decide +kernel
+example : run Gen.PyIRCli.prog (Gen.PyIRCli.prog.formattedVia
+      (logMethods Colour.termcolor irTabs Gen.Enums.DgbFuncQual fun _ (d : List (String × LogRec)) => (d, none))
+      (fun _ => Except.error (ε := PyErr) (α := Unit) .unmodelled) (fun _ _ _ => .error .unmodelled))
+    Gen.PyIRCli.logs ({} : Given).args [("2024-01-01 00:00:00.000001", ⟨7, "launchd", 42, "hi"⟩)]
+    = .ran ["\x1b[32m2024-01-01 00:00:00.000001 \x1b[0m \x1b[35mlaunchd(42)" ++ spaces 16 ++ "\x1b[0m \x1b[97mhi\x1b[0m"] none := by
   decide +kernel
 
 end KdVerif.C14
